@@ -47,6 +47,23 @@ def gen_ops(tier, rng):
         offs |= {rng.randrange(size) for _ in range(20 if tier == "quick" else 200)}
         for off in sorted(offs):
             ver(f, o, d, p, size, rng.randrange(d + p), off, rng.randrange(1, 256), "large")
+    # Leopard GF8 / GF16 (the property is about every codec): every shard, incl. shapes with more parity than data, one
+    # parity, one data shard; sizes are multiples of 64; the 32 KiB work chunk is straddled
+    leoshapes = [(3, 7), (1, 2), (2, 5), (1, 1), (2, 2), (4, 4), (5, 3), (7, 9), (1, 8), (6, 1), (12, 20)]
+    for fam in ["leo8", "leo16"]:
+        for (d, p) in leoshapes:
+            for size in ([64] if tier == "quick" else [64, 128, 192]):
+                ver.seed = rng.randrange(1, 1 << 30)
+                ver(fam, rng.choice(["-", "-", "nosimd", "avx2-"]), d, p, size, -1, 0, 0, "leo-noflip")
+                step = 1 if tier == "thorough" else (5 if d + p > 10 else 2)
+                for s_ in range(d + p):
+                    for off in list(range(0, size, step)) + [size - 1]:
+                        ver(fam, "-", d, p, size, s_, off, rng.randrange(1, 256), "leo-every-shard")
+        for (d, p, size) in [(3, 5, 32768 + 64), (9, 4, 65536), (2, 3, 3 * 32768)]:
+            ver.seed = rng.randrange(1, 1 << 30)
+            for s_ in range(d + p):
+                for off in [0, 63, 64, 32767, 32768, size - 1, rng.randrange(size)]:
+                    ver(fam, rng.choice(["-", "nosimd"]), d, p, size, s_, off, rng.randrange(1, 256), "leo-large")
     # many callers verifying their own valid sets through ONE encoder: every verdict must be true
     for (fam, o, d, p, size) in [("default", "-", 5, 3, 4096), ("default", "ms=64,g=4", 10, 4, 20000), ("leo8", "-", 8, 8, 4096),
                                   ("leo16", "-", 8, 8, 65536), ("leo16", "-", 4, 2, 4096), ("cauchy", "nosimd", 3, 2, 1000)]:
